@@ -86,7 +86,8 @@ def popLoop (glen : Nat) : List MaxEntry → (Nat → List Nat) → (Nat → Lis
       | [] => .error .indexError                          -- max_smt_goals_backtrack[k].pop() of []
       | l :: r => popLoop glen es (upd bt e.id r) (upd h e.addr ((h e.addr).take l))
 
-/-- `for k in goals_to_remove: … del max_smt_goals_backtrack[k]` -/
+/-- `for k in goals_to_remove: … max_smt_goals_backtrack.pop(k, None)` (the unrepaired code used `del`, which
+    raised KeyError for a goal created in the popped level: finding F41) -/
 def delKeys : List Nat → (Nat → List Nat) → (Nat → List Nat)
   | [], bt => bt
   | k :: ks, bt => delKeys ks (upd bt k [])
@@ -160,7 +161,9 @@ def lastFormula (cs : List Cmd) : Except Err (List Nat × List Goal) :=
   | .error e => .error e
   | .ok st => .ok st.result
 
-/-! ### `get_strict_formula` (script.py:239-249) -/
+/-! ### `get_strict_formula` (script.py:239-251)
+
+Refuses push, pop and (since the repair of finding F42) reset-assertions, and anything but exactly one check-sat. -/
 
 def isStackCmd : Cmd → Bool
   | .push _ => true
@@ -176,7 +179,7 @@ def assertsOfCmds (cs : List Cmd) : List Nat :=
   cs.filterMap fun | .assert f => some f | _ => none
 
 def strictFormula (cs : List Cmd) : Except Err (List Nat) :=
-  if cs.any isStackCmd then .error .valueError          -- "Was not expecting push-pop commands"
+  if cs.any isStackCmd then .error .valueError          -- "Was not expecting push-pop / reset-assertions commands"
   else if (cs.filter isCheck).length ≠ 1 then .error .valueError   -- "exactly one check-sat"
   else .ok (assertsOfCmds cs)
 
